@@ -14,7 +14,7 @@ NSHARDS = {"quick": 32, "thorough": 64}
 BUDGET_S = {"quick": 200, "thorough": 1800}
 EXTRA_BUILDS = {"thorough": ["rel"]}  # used by the generic release-build stage in core
 MIN_HITS = {
-    'quick': {"der_rt": 1312, "last_byte_is_flag": 553, "last_byte_not_flag": 759, "der_plus_flag": 15680, "compact_rt": 8960, "recover": 192, "der_bad": 11280, "compact_bad": 912},
+    'quick': {"der_rt": 1312, "last_byte_is_flag": 552, "last_byte_not_flag": 759, "der_plus_flag": 15680, "compact_rt": 8960, "recover": 192, "der_bad": 11280, "compact_bad": 912},
     'thorough': {"der_rt": 103680, "last_byte_is_flag": 40459, "der_plus_flag": 1128960, "compact_rt": 645120, "recover": 23040, "der_bad": 817824, "compact_bad": 145920},
 }
 FLAGS = [0x40, 0x01, 0x02, 0x03, 0x80, 0x41, 0x42, 0x43, 0xC1, 0xC2, 0xC3, 0x81, 0x82, 0x83]
